@@ -54,6 +54,12 @@ class Context:
         self.fields_and_fragments = fields_and_fragments
         self.compared_fragment_pairs = compared_fragment_pairs
         self.fragments = fragments
+        # (id of a cached field map, fragment name, mutually exclusive) that
+        # have been compared already, see
+        # _conflicts_between_fields_and_fragment.
+        self.compared_fields_and_fragment_pairs = (
+            set()
+        )  # type: Set[Tuple[int, str, bool]]
 
 
 def _permutations(lst: Sequence[T]) -> Iterator[Tuple[T, T]]:
@@ -412,6 +418,15 @@ def _conflicts_between_fields_and_fragment(
     fragment_def = ctx.fragments.get(fragment_name)
     if not fragment_def:
         return
+
+    # The same collection of fields is compared with the same fragment only
+    # once per document. Besides avoiding duplicate work this is what ends the
+    # comparison for a fragment that spreads itself at several depths (which is
+    # reported by the fragment cycles rule).
+    cache_key = (id(field_map), fragment_name, mutually_exclusive)
+    if cache_key in ctx.compared_fields_and_fragment_pairs:
+        return
+    ctx.compared_fields_and_fragment_pairs.add(cache_key)
 
     ff = _referenced_fields_and_fragments(ctx, fragment_def)
     fragment_field_map, fragment_fragment_names = ff
